@@ -1,7 +1,9 @@
 import CCV.Drv.Util
 import CCV.Model.Inline
+import CCV.Model.InlineBatch
+import CCV.Drv.C07Fresh
 namespace CCV.Drv.C07
-open CCV CCV.Drv CCV.Inline
+open CCV CCV.Drv CCV.Inline CCV.InlineBatch
 
 /-- an element of the free monoid over indices, printed as maximal ascending runs `lo-hi` joined by `.` -/
 def runs : List Nat → List (Nat × Nat)
@@ -71,15 +73,47 @@ def gSmall (K fam : Nat) (s : Nat) (x : Nat) : Nat × Nat :=
   if fam == 0 then ((s + x % 2) % 2 ^ K, s)
   else ((if x % 2 == 1 then 2 ^ K - 1 else (s * 2) % 2 ^ K + s / 2 ^ (K - 1)), s)
 
+
+/-! batched families (`smallb`, `onebitb`): the state is a flat BIT array of shape `B ++ [K]` (resp. of
+    dimensions `sh`), one input = one bit per batch row (resp. per position), packed little endian
+    into a number (bit `r` = the input of row / position `r`) -/
+
+def parseDims? (s : String) : Option (List Nat) :=
+  if s == "_" then some [] else (s.splitOn ".").mapM String.toNat?
+
+def showBits (xs : List Nat) : String := if xs.isEmpty then "-" else ".".intercalate (xs.map toString)
+
+/-- rows of `K` bits (little endian) of a flat array -/
+def rowsOf (K : Nat) (s : List Nat) : List Nat :=
+  (List.range (s.length / K)).map fun r =>
+    (List.range K).foldl (fun acc k => acc + (s.getD (r * K + k) 0 % 2) * 2 ^ k) 0
+
+def ofRows (K : Nat) (rs : List Nat) : List Nat :=
+  rs.flatMap fun v => (List.range K).map fun k => (v >>> k) % 2
+
+/-- body of the batched small-state family: row `r` steps with `gSmall K fam` on input bit `r` of `x`;
+    output = old state -/
+def gSmallB (K fam : Nat) (st : List Nat) (x : Nat) : List Nat × List Nat :=
+  (ofRows K ((rowsOf K st).zipIdx.map fun (v, r) => (gSmall K fam v ((x >>> r) % 2)).1), st)
+
+/-- body of the batched one-bit family: position `r` steps with `gOneBit tt` on input bit `r` of `x`;
+    output = `state ⊕ input`, elementwise -/
+def gOneBitB (tt : Nat) (st : List Nat) (x : Nat) : List Nat × List Nat :=
+  let r := st.zipIdx.map fun (v, r) => gOneBit tt (v % 2 == 1) ((x >>> r) % 2 == 1)
+  (r.map (·.1.toNat), r.map (·.2.toNat))
+
 /-- requests:
   `assoc <d|e> <emptyOut> <s> <xs>`            → `iterAssoc` on 2x2 matrices: `<final>|<outputs>`
   `onebit <d|e> <emptyOut> <tt> <s> <xs>`      → `iterOneBit`
   `small <d|e> <emptyOut> <K> <fam> <s> <xs>`  → `iterSmall`
+  `smallb <d|e> <emptyOut> <K> <B> <fam> <s bits> <xs>`  → `iterSmallB` (batch shape `B`, flat state)
+  `onebitb <d|e> <emptyOut> <sh> <tt> <s bits> <xs>`     → `iterOneBitB` (state dimensions `sh`)
   `prefix <which> <n>`  → `<results>|<trace>` of the Rust prefix function `which`
                           (binary_ascent | sqrt_trick | segment_tree | picked_default | picked_extreme)
                           on the free monoid over `n` generators, combine = concatenation
   `logsum <n>`          → `<result>|<trace>` of `log_depth_sum`, `ERR` for the empty vector -/
 def handle : List String → String
+  | "fresh" :: rest => C07Fresh.handle rest
   | ["prefix", which, n] =>
     match parseNat? n with
     | some n =>
@@ -113,6 +147,18 @@ def handle : List String → String
     | some lv, some eo, some k, some fam, some s, some xs =>
       let r := iterSmall lv k (eo == 1) 0 (gSmall k fam) s xs
       toString r.1 ++ "|" ++ showOuts (eo == 1) xs.length (r.2.map toString)
+    | _, _, _, _, _, _ => "BAD-OP"
+  | ["smallb", lv, eo, k, b, fam, s, xs] =>
+    match parseLevel? lv, parseNat? eo, parseNat? k, parseDims? b, parseNat? fam, parseNatList? s, parseNatList? xs with
+    | some lv, some eo, some k, some b, some fam, some s, some xs =>
+      let r := iterSmallB lv b k (eo == 1) [] (gSmallB k fam) s xs
+      showBits r.1 ++ "|" ++ showOuts (eo == 1) xs.length (r.2.map showBits)
+    | _, _, _, _, _, _, _ => "BAD-OP"
+  | ["onebitb", lv, eo, sh, tt, s, xs] =>
+    match parseLevel? lv, parseNat? eo, parseDims? sh, parseNat? tt, parseNatList? s, parseNatList? xs with
+    | some lv, some eo, some sh, some tt, some s, some xs =>
+      let r := iterOneBitB lv sh (eo == 1) [] (gOneBitB tt) s xs
+      showBits r.1 ++ "|" ++ showOuts (eo == 1) xs.length (r.2.map showBits)
     | _, _, _, _, _, _ => "BAD-OP"
   | ["logsum", n] =>
     match parseNat? n with
